@@ -1,43 +1,47 @@
 #!/usr/bin/env python3
-"""store_benign.py: copy the behaviour-preserving changes of wave R (/tmp/wt_rCxx_out/rK.diff + notes) and the outcome of
-tools/verify_benign.sh (/tmp/benlogs) into /verif/benign/<Cxx-rK>/ and write benign/INDEX.md."""
+"""store_benign.py: copy behaviour-preserving changes (/tmp/wt_{r,u}Cxx_out/rK.diff + notes) and the outcome of
+tools/verify_benign.sh (/tmp/benlogs/<P>_<label>K*.log) into /verif/benign/<Cxx>-<label>K/ ; then rebuild benign/INDEX.md
+from everything stored (label r = first round, u = second round)."""
 import glob, json, os, re, shutil
-rows = []
-for diff in sorted(glob.glob("/tmp/wt_rC??_out/r?.diff")):
-    P = re.search(r"wt_r(C\d\d)_out", diff).group(1)
-    k = os.path.basename(diff)[:2]
+for diff in sorted(glob.glob("/tmp/wt_[ru]C??_out/r?.diff")):
+    lab, P = re.search(r"wt_([ru])(C\d\d)_out", diff).groups()
+    k = os.path.basename(diff)[1]
     if not os.path.getsize(diff):
         continue
-    logs = sorted(glob.glob("/tmp/benlogs/%s_%s*.log" % (P, k)))
+    logs = sorted(glob.glob("/tmp/benlogs/%s_%s%s*.log" % (P, lab, k)))
     if not logs:
         continue
-    first = open(logs[0]).read()
-    m = re.search(r"SUMMARY benign=\S+ alarms:(.*)", first)
+    m = re.search(r"SUMMARY benign=\S+ alarms:(.*)", open(logs[0]).read())
     if not m:
         continue
-    alarms_first = m.group(1).split()
-    notes = ""
     reruns = []
     for lg in logs[1:]:
         mm = re.search(r"SUMMARY benign=\S+ alarms:(.*)", open(lg).read())
         if mm:
             reruns.append(mm.group(1).strip())
-    d = "/verif/benign/%s-%s" % (P, k)
+    d = "/verif/benign/%s-%s%s" % (P, lab, k)
     os.makedirs(d, exist_ok=True)
     shutil.copy(diff, os.path.join(d, "patch.diff"))
     nf = diff.replace(".diff", "_notes.md")
     if os.path.exists(nf):
         shutil.copy(nf, os.path.join(d, "notes.md"))
+    files = re.findall(r"^\+\+\+ b/(\S+)", open(diff).read(), re.M)
+    meta = {"anchored_in_property": P, "files_changed": files,
+            "checked_with": "tools/verify_benign.sh: fresh worktree of /repo HEAD, patch applied, all 20 quick checks run against it",
+            "alarms_first_run": m.group(1).split(), "reruns_of_the_alarming_checks": reruns}
+    json.dump(meta, open(os.path.join(d, "meta.json"), "w"), indent=1)
+rows = []
+for d in sorted(glob.glob("/verif/benign/C??-[ru]?")):
+    meta = json.load(open(os.path.join(d, "meta.json")))
+    notes = ""
+    nf = os.path.join(d, "notes.md")
+    if os.path.exists(nf):
         for ln in open(nf):
             if ln.strip():
                 notes = re.sub(r"^#+\s*", "", ln.strip())[:150]
                 break
-    files = re.findall(r"^\+\+\+ b/(\S+)", open(diff).read(), re.M)
-    meta = {"anchored_in_property": P, "files_changed": files,
-            "checked_with": "tools/verify_benign.sh: fresh worktree of /repo HEAD, patch applied, all 20 quick checks run against it",
-            "alarms_first_run": alarms_first, "reruns_of_the_alarming_checks": reruns}
-    json.dump(meta, open(os.path.join(d, "meta.json"), "w"), indent=1)
-    rows.append((P + "-" + k, ", ".join(files)[:70], notes, " ".join(alarms_first) or "none", "; ".join(reruns) or "-"))
+    rows.append((os.path.basename(d), ", ".join(meta["files_changed"])[:70], notes, " ".join(meta["alarms_first_run"]) or "none",
+                 "; ".join(meta["reruns_of_the_alarming_checks"]) or "-"))
 with open("/verif/benign/INDEX.md", "w") as fh:
     fh.write("# Behaviour-preserving changes (wave R) run through all 20 checks\n\nAn alarm here is a false alarm by construction. "
              "`alarms (first run)` lists checks that exited non-zero; `after correction` the outcome of re-running those checks "
